@@ -77,15 +77,17 @@ Join2(p, q) == IF IsAbs(q) THEN q
 RECURSIVE JoinAll(_)
 JoinAll(ps) == IF Len(ps) = 1 THEN ps[1] ELSE JoinAll(<<Join2(ps[1], ps[2])>> \o SubSeq(ps, 3, Len(ps)))
 
-(* lexical normalisation of an absolute path: the segments below "/" *)
-Norm(p) ==
-  LET F[i \in 0 .. Len(p)] ==
-        IF i = 0 THEN <<>>
-        ELSE LET s == p[i]  st == F[i - 1] IN
-             IF s = "" \/ s = "." THEN st
-             ELSE IF s = ".." THEN (IF st = <<>> THEN st ELSE Front(st))
-             ELSE Append(st, s)
-  IN F[Len(p)]
+(* lexical normalisation of an absolute path: the segments below "/".  Scanned from the right: a ".." cancels *)
+(* the nearest name to its left, what is left over at "/" is dropped (posixpath.normpath).                  *)
+RECURSIVE NormR(_, _, _, _)
+NormR(p, i, skip, acc) ==
+  IF i = 0 THEN acc
+  ELSE LET s == p[i] IN
+       IF s = "" \/ s = "." THEN NormR(p, i - 1, skip, acc)
+       ELSE IF s = ".." THEN NormR(p, i - 1, skip + 1, acc)
+       ELSE IF skip > 0 THEN NormR(p, i - 1, skip - 1, acc)
+       ELSE NormR(p, i - 1, 0, <<s>> \o acc)
+Norm(p) == NormR(p, Len(p), 0, <<>>)
 Under(root, p) == LET r == Norm(root)  n == Norm(p) IN Len(n) >= Len(r) /\ SubSeq(n, 1, Len(r)) = r
 
 -----------------------------------------------------------------------------
